@@ -42,6 +42,7 @@ type Client struct {
 	Unsubacks []packet.ID
 	Acked     map[packet.ID]int // PUBACK/PUBCOMP received for own publishes
 	pubID     packet.ID
+	withheld  []packet.Generic // acknowledgements not sent because of NoAck
 }
 
 // NewClient dials a new connection for client id.
@@ -62,6 +63,12 @@ func (c *Client) Pump() bool {
 		case *packet.Publish:
 			c.Got = append(c.Got, Delivery{p.Message.Topic, string(p.Message.Payload), p.Message.QOS, p.Message.Retain, p.Dup, p.ID})
 			if c.NoAck || c.Closed() {
+				switch p.Message.QOS {
+				case 1:
+					c.withheld = append(c.withheld, Puback(p.ID))
+				case 2:
+					c.withheld = append(c.withheld, Pubrec(p.ID))
+				}
 				continue
 			}
 			switch p.Message.QOS {
@@ -100,6 +107,15 @@ func (c *Client) Pump() bool {
 		}
 	}
 	return sent
+}
+
+// Flush ends the withholding of acknowledgements and sends the withheld ones.
+func (c *Client) Flush() {
+	c.NoAck = false
+	for _, a := range c.withheld {
+		c.Send(a)
+	}
+	c.withheld = nil
 }
 
 // Pub publishes a message with a fresh packet id (for QoS > 0).
